@@ -177,6 +177,17 @@ def fetch (x : Exclusion) (ext fg : Bool) (src tgt : Repo) (rev : Rev) : Except 
     let t := copy x src tgt (missing fg src tgt rev)
     .ok (if ext then withParentInvs src t (missing fg src tgt rev) else t)
 
+/-- the repository after a successful fetch (`none` = the fetch raised) -/
+def fetchResult (x : Exclusion) (ext fg : Bool) (src tgt : Repo) (rev : Rev) : Option Repo :=
+  match fetch x ext fg src tgt rev with
+  | .ok t => some t
+  | .error _ => none
+
+def fetchError (x : Exclusion) (ext fg : Bool) (src tgt : Repo) (rev : Rev) : Option Err :=
+  match fetch x ext fg src tgt rev with
+  | .ok _ => none
+  | .error e => some e
+
 /-- what a testament is computed from: revision id, metadata, parents, and per
 entry file id, name token and content token (not the text revision) -/
 def testament (r : Repo) (k : Rev) : Option (Rev × Nat × List Rev × List (FileId × Nat × Nat)) :=
